@@ -870,7 +870,7 @@ def run_c16d(ctx):
         from . import common
         norm = ident = None
         for bi, t, cb in R.local_callees(dec):
-            if common.is_l21_norm(ctx, cb) and cb.arg_count == 1 and cb.local_ty(0) in ("T",):
+            if common.is_l21_norm(ctx, cb) and cb.arg_count == 1 and (f.ty(cb.local_ty(0)) or {}).get("k") == "param":
                 norm = cb
             if common.is_identity_ctor(ctx, cb):
                 ident = cb
@@ -1873,8 +1873,11 @@ def run_c20b(ctx):
                 continue
             if trait is None and fi.get("impl_trait"):
                 continue
-            if rhs is not None and len(fi.get("inputs", [])) > 1 and fi["inputs"][1] != rhs:
-                continue
+            if rhs is not None and len(fi.get("inputs", [])) > 1:
+                t1 = f.ty(fi["inputs"][1]) or {}
+                kind = "T" if t1.get("k") == "param" else ("&T" if t1.get("k") == "ref" and (f.ty(t1.get("t", "")) or {}).get("k") == "param" else "other")
+                if kind != rhs:
+                    continue
             out.append(b)
         if len(out) != 1:
             raise Undecided("Vector::%s%s (found %d)" % (name, " as " + trait if trait else "", len(out)))
